@@ -56,7 +56,9 @@ SizeClasses   == {"truncated", "negsize", "absurdsize", "nonnumsize"}
 HeaderClasses == {"hdr_nocolon", "hdr_nobracket", "hdr_emptykey"}
 JsonClasses   == {"badjson", "shape_array", "shape_type", "shape_scalar"}
 FieldClasses  == {"nouri", "badurl", "badmethod"}
-AmmoClasses   == {"none", "longline", "nullvalue", "badrequest"} \cup SizeClasses \cup HeaderClasses \cup JsonClasses \cup FieldClasses
+\* the FILE is well-formed, the `headers` option of the provider config is not (util.DecodeHTTPConfigHeaders)
+CfgClasses    == {"cfghdr_nocolon", "cfghdr_nobracket", "cfghdr_emptykey"}
+AmmoClasses   == {"none", "longline", "nullvalue", "badrequest"} \cup SizeClasses \cup HeaderClasses \cup JsonClasses \cup FieldClasses \cup CfgClasses
 
 Applies(f, c) ==
     CASE c = "none"          -> TRUE
@@ -66,6 +68,7 @@ Applies(f, c) ==
       [] c = "nullvalue"     -> f \in {"jsonline", "jsonarray", "grpcjson"}
       [] c = "longline"      -> f # "jsonarray"
       [] c = "badrequest"    -> f = "raw"       \* right size, but the bytes are not an HTTP request
+      [] c \in CfgClasses    -> f \in HttpFormats
       [] c = "nouri"         -> f = "uripost"   \* size line with a single field
       [] c = "badurl"        -> f \in {"uri", "uripost"}            \* url.Parse fails
       [] c = "badmethod"     -> f \in {"jsonline", "jsonarray"}     \* not an HTTP method token
@@ -91,6 +94,8 @@ Skippable(f, c) == f = "grpcjson" /\ c \in JsonClasses
 
 \* whole-file readers decode everything before the first delivery
 WholeFile(f, m) == f = "jsonarray" \/ m = "preload"
+\* where the defect is met: before the first delivery (constructor / load), or at the item
+AtLoad(c) == WholeFile(c.format, c.mode) \/ c.cls \in CfgClasses
 
 -----------------------------------------------------------------------------
 (* Descriptions *)
@@ -150,6 +155,8 @@ DescTable == [
     prop_nokey       |-> [t |-> {"config"},      at |-> 1, v |-> "reject"],
     prop_nofile      |-> [t |-> {"config"},      at |-> 1, v |-> "reject"],
     prop_nosuchkey   |-> [t |-> {"config"},      at |-> 1, v |-> "reject"],
+    prop_emptykey    |-> [t |-> {"config"},      at |-> 1, v |-> "reject"],
+    unknown_tag      |-> [t |-> {"config"},      at |-> 0, v |-> "deliver"],
     env_unset        |-> [t |-> {"config"},      at |-> 1, v |-> "reject"],
     env_badint       |-> [t |-> {"config"},      at |-> 1, v |-> "reject"]
 ]
@@ -224,7 +231,7 @@ Reject(s)       == [e |-> Ev("End", "rejected"),
                     s |-> [s EXCEPT !.res = "rejected", !.out = IF Variant = "loseprefix" THEN <<>> ELSE @]]
 
 AmmoSucc(c, s) ==
-    IF WholeFile(c.format, c.mode) /\ s.loaded = "no" THEN
+    IF AtLoad(c) /\ s.loaded = "no" THEN
         { CASE v = "reject"  -> Reject(s)
             [] v = "deliver" -> [e |-> Ev("Load", "with"), s |-> [s EXCEPT !.loaded = "with"]]
             [] v = "skip"    -> [e |-> Ev("Load", "without"), s |-> [s EXCEPT !.loaded = "without"]]
@@ -308,7 +315,7 @@ NoFalseReject ==
 \* streaming: when the reader fails at the item, everything before it has been delivered, unchanged
 StreamDeliversPrefix ==
     (st.res = "rejected" /\ cs.kind = "ammo") =>
-        st.out = (IF WholeFile(cs.format, cs.mode) THEN <<>> ELSE Prefix(cs))
+        st.out = (IF AtLoad(cs) THEN <<>> ELSE Prefix(cs))
 
 \* accepted: every well-formed entry was delivered, in order
 AcceptedDeliversAll ==
